@@ -64,6 +64,9 @@ LINES = [
     ("lit_close_d_doc", "   &c''d\" !! d{n}"),
     ("cpp", "#define X{n} 'a"),
     ("bang_in_lit_amp", "y{n} = h('!', \"!!\", &"),
+    # alternative marks: only the first line of the block carries the mark
+    ("doc_alt", "!* a{n} isn't \"code\""),
+    ("predoc_alt", "  !| q{n}"),
 ]
 
 NUM_RE = re.compile(r"\d+")
@@ -146,7 +149,7 @@ def run_ford(lines):
 
 
 def run_ref(lines):
-    ref = RefFree(MARKS["docmark"], MARKS["predocmark"])
+    ref = RefFree(MARKS["docmark"], MARKS["predocmark"], MARKS["docmark_alt"], MARKS["predocmark_alt"])
     for l in lines:
         ref.feed(l)
     return ref
